@@ -52,7 +52,17 @@ fn bonds_obs(p: &PDB) -> Option<Vec<String>> {
     crate::guarded(|| p.bonds().map(|(a, b2, k)| format!("{}:{}-{}:{} {:?}", a.serial_number(), a.name(), b2.serial_number(), b2.name(), k)).collect())
 }
 fn full(p: &PDB) -> String {
-    format!("{} {:?} {:?} {:?}", snap::pdb(p, &snap::atom), p.identifier, p.unit_cell, p.symmetry.as_ref().map(Symmetry::index))
+    format!(
+        "{} {:?} {:?} {:?} scale {:?} origx {:?} mtrix {:?} remarks {:?}",
+        snap::pdb(p, &snap::atom),
+        p.identifier,
+        p.unit_cell,
+        p.symmetry.as_ref().map(Symmetry::index),
+        p.scale.as_ref().map(TransformationMatrix::matrix),
+        p.origx.as_ref().map(TransformationMatrix::matrix),
+        p.mtrix().map(|m| (m.serial_number, m.transformation.matrix(), m.contained)).collect::<Vec<_>>(),
+        p.remarks().collect::<Vec<_>>()
+    )
 }
 fn tri(o: Option<bool>) -> Sx {
     match o {
@@ -123,6 +133,20 @@ fn copy_case(out: &mut Out, kind: &str, orig: &PDB, copy: Option<PDB>) {
 
 pub fn run(seed: u64, count: usize, thorough: bool, out: &mut Out) {
     let mut rng = Rng::new(seed);
+    // ---- an atom whose element cannot be read from its fields any more: created without element, renamed to an element symbol
+    for (first, second) in [("X1", "CA"), ("Q", "ZN"), ("X1", "H"), ("CA", "X1")] {
+        if let Some(mut a) = Atom::new(false, 1, "1", first, 1.0, 2.0, 3.0, 1.0, 10.0, "", 0) {
+            let _ = a.set_name(second);
+            let mut m = Model::new(1);
+            m.add_atom(a, "A", (1, None), ("LIG", None));
+            let mut p = PDB::new();
+            p.add_model(m);
+            let q = crate::guarded(|| p.clone());
+            copy_case(out, "clone-renamed-atom", &p, q);
+            let e = p.atom(0).map(|a| a.element().map(|e| e.atomic_number()));
+            out.count(&format!("renamed:{first}->{second}:element:{e:?}"));
+        }
+    }
     for i in 0..count {
         // ---- a structure with bonds, three ways
         let (p, text): (PDB, Option<String>) = match i % 3 {
@@ -161,6 +185,34 @@ pub fn run(seed: u64, count: usize, thorough: bool, out: &mut Out) {
                 (p, None)
             }
         };
+        // every piece of metadata present or absent on its own, with values of its own
+        let mut p = p;
+        if rng.chance(1, 2) {
+            p.scale = Some(TransformationMatrix::scale(0.5, 0.25, 0.125));
+        }
+        if rng.chance(1, 2) {
+            p.origx = Some(TransformationMatrix::translation(1.0, 2.0, 3.0));
+        }
+        if rng.chance(1, 3) {
+            p.add_mtrix(MtriX::new(1 + rng.below(3), TransformationMatrix::rotation_x(90.0), rng.chance(1, 2)));
+        }
+        if rng.chance(1, 3) {
+            let _ = p.add_remark(2, "RESOLUTION. 1.25 ANGSTROMS.".to_string());
+        }
+        if rng.chance(1, 3) {
+            p.unit_cell = Some(UnitCell::new(10.0, 20.0, 30.0, 90.0, 100.0, 110.0));
+            p.symmetry = Symmetry::from_index(1 + rng.below(230));
+        }
+        if rng.chance(1, 3) {
+            p.identifier = Some("1ABC".to_string());
+        }
+        if rng.chance(1, 3) {
+            // an atom without element that is renamed to an element symbol afterwards: a copy has to keep it without element
+            if let Some(a) = p.atoms_mut().find(|a| a.element().is_none()) {
+                let _ = a.set_name("CA");
+            }
+        }
+        let p = p;
         // ---- listing the bonds: every stored bond whose two atoms are in the structure is listed, with exactly those two atoms
         {
             let (ids, bonds) = internals(&p);
